@@ -523,7 +523,12 @@ def value_to_pedal_type(value):
     if isinstance(unwrap_value(value), Exception):
         value_pedal_type = "An error"
     else:
-        value_pedal_type = get_pedal_type_from_value(unwrap_value(value), evaluate)
+        try:
+            value_pedal_type = get_pedal_type_from_value(unwrap_value(value), evaluate)
+        except Exception:
+            # Not a kind of value that we know how to describe (e.g., bytes);
+            # it certainly does not have any of the types we can express
+            value_pedal_type = "A value of type " + type(unwrap_value(value)).__name__
     return value_pedal_type
 
 
@@ -552,6 +557,9 @@ class _compare_type(RuntimeAssertionFeedback):
         """ Tests if the left and right are equal """
         value_type = self.fields['value_type']
         expected_type = self.fields['expected_type']
+        if isinstance(value_type, str) and value_type.startswith("A value of type "):
+            # We could not describe the value, so it is not of the expected type
+            return True
         return not is_subtype(value_type, expected_type)
 
 
